@@ -11,7 +11,7 @@ prop("C01",
      rule="Hypothesis-generated data (noise, tones, AR, trend, constant, integer, 1e6 dynamic range, explicit small "
           "vectors; real, complex and real-valued-declared-complex; N 1..96 and, for ~12 % of the cases, 97..512 (correlogram: 1..64 / 65..128, 2-D: 1..64 / 65..160); "
           "arrays and lists) x every key of window_names x NFFT in {None, N, N+1, next prime, 2N, 2N+1, power of two, "
-          "anything in [N,4N]} (+ 'nextpow2' for the class); 2-D input N x c, c 1..4, columns independent signals; "
+          "anything in [N,4N]} (+ 'nextpow2' for the class); 2-D input N x c, c 1..4 (one case in ten: 257..700 short columns), columns independent signals; "
           "correlogram with NFFT >= 2N-1 from the same NFFT family and both correlation back ends.  Non-trivial: "
           "N >= 2, data not identically zero and (window != rectangular or NFFT > N or c >= 2) "
           "[func/cls/parseval/cols]; N >= 2 and non-zero data [wk].  Distinct = SHA-1 of the case descriptor.",
@@ -252,6 +252,12 @@ def cols_case(draw):
     first = draw(data_1d(max_small=64, max_big=160, dtype=dtype))
     N = first["n"]
     c = draw(st.sampled_from([1, 2, 2, 3, 3, 4, 4]))
+    if draw(st.integers(0, 9)) == 9:
+        # a wide matrix (hundreds of short series): the further columns come from one seed
+        N = draw(st.integers(2, 12))
+        first = draw(gen.signal(dtype=dtype, kinds=("noise", "int", "tones"), n=N))
+        return {"cols": [first], "wide": draw(st.sampled_from([257, 300, 511, 512, 700])), "wide_seed": draw(gen.seeds),
+                "window": draw(window_name), "nfft": draw(st.one_of(gen.nfft_at_least(N), st.none()))}
     cols = [first] + [draw(gen.signal(dtype=dtype, kinds=KINDS, n=N, explicit_max=16)) for _ in range(c - 1)]
     return {"cols": cols, "window": draw(window_name), "nfft": draw(st.one_of(gen.nfft_at_least(N), gen.nfft_at_least(N), gen.nfft_at_least(N), st.none()))}
 
@@ -261,12 +267,18 @@ def cols_case(draw):
 def c01_cols(ctx, case):
     cols = [gen.realise(d) for d in case["cols"]]
     N = len(cols[0])
+    if case.get("wide"):
+        rng = np.random.default_rng(case["wide_seed"])
+        more = rng.standard_normal((case["wide"] - 1, N))
+        if np.iscomplexobj(cols[0]):
+            more = more + 1j * rng.standard_normal((case["wide"] - 1, N))
+        cols = cols + [more[i] * (float(np.max(np.abs(cols[0]))) or 1.0) for i in range(case["wide"] - 1)]
     c = len(cols)
     cplx = any(np.iscomplexobj(v) for v in cols)
     X = np.stack([np.asarray(v).astype(complex if cplx else float) for v in cols], axis=1)
     name = case["window"]
     nfft = gen.resolve_nfft(case["nfft"], N)
-    ctx.cls("complex" if cplx else "real", "c=%d" % c, "window=" + name, nbucket(N), "N " + ("odd" if N % 2 else "even"),
+    ctx.cls("complex" if cplx else "real", "c=%d" % c if c <= 8 else "c>256", "window=" + name, nbucket(N), "N " + ("odd" if N % 2 else "even"),
             *nfft_label(case["nfft"], nfft, N))
     ctx.nontrivial(N >= 2 and bool(np.any(X != 0)) and (name not in ("rectangular", "rectangle") or nfft > N or c >= 2))
     w = window_or_skip(ctx, N, name)
@@ -281,6 +293,8 @@ def c01_cols(ctx, case):
         exp = definition(X[:, j], w, nfft, onesided=not cplx)
         compare(ctx, got[:, j], exp, "speriodogram(%d x %d %s, NFFT=%r, window=%r): column %d vs |DFT(x_j*w)|^2/N"
                 % (N, c, "complex" if cplx else "real", case["nfft"], name, j), sig=sig)
+        if c > 8 and j not in (0, 1, c // 2, c - 2, c - 1):
+            continue
         one = np.asarray(spectrum.speriodogram(X[:, j], NFFT=nfft, detrend=False, scale_by_freq=False, window=name), dtype=float)
         compare(ctx, got[:, j], one, "column %d of the 2-D result vs the 1-D result of that column (window=%r)" % (j, name), sig=sig)
 
